@@ -54,6 +54,18 @@ void h_heur(void)
     __CPROVER_assert(attained, "C15.cost and it is the cost through one of them");
     if (N_STARTS == 1) REACH("single start"); if (N_STARTS == 3 && r == VIA[0] && r < VIA[1] && r < VIA[2]) REACH("first of three starts is best");
 }
+/* ---- OrderedInfSampler::queueComparator: std::priority_queue::top() is an element x with !comp(x, y) for every y -- it must be a cheapest sample ---- */
+static double HC(int s) { return COST[s]; }
+bool ord_queueComparator(int a, int b)
+/*@BODY ord_queueComparator@*/
+void h_cmp(void)
+{
+    int a = (int)nondet_unsigned(), b = (int)nondet_unsigned(); __CPROVER_assume(a >= 1 && a < NS && b >= 1 && b < NS && COST[a] == COST[a] && COST[b] == COST[b]);
+    bool ab = ord_queueComparator(a, b), ba = ord_queueComparator(b, a), aa = ord_queueComparator(a, a);
+    __CPROVER_assert(!aa && !(ab && ba), "the queue order is irreflexive and asymmetric (a valid strict order for std::priority_queue)");
+    __CPROVER_assert(!ab == !(COST[b] < COST[a]), "C15.cost a sample orders below another exactly when the other is cheaper: top() is a sample with the smallest heuristic cost");
+    if (ab) REACH("b cheaper"); if (!ab && !ba) REACH("equal cost");
+}
 void h_iss(void)
 {
     __CPROVER_assume(BEST_NOW == BEST_NOW); ver = 0; inf_calls = base_calls = best_calls = 0; inf_ver = base_ver = 99;
